@@ -50,9 +50,28 @@ type Check struct {
 	NotDecided  string
 	Assumptions []string
 	Extra       map[string]interface{}
+	rename      map[string]string // rule renaming while a shared rule runs under another property (see As)
+}
+
+// As runs f with obligations of rule `from` recorded as rule `to` (shared rules keep their native numbering).
+func (c *Check) As(from, to string, f func()) {
+	if c.rename == nil {
+		c.rename = map[string]string{}
+	}
+	old, had := c.rename[from]
+	c.rename[from] = to
+	f()
+	if had {
+		c.rename[from] = old
+	} else {
+		delete(c.rename, from)
+	}
 }
 
 func (c *Check) Ob(rule, instance string, pos token.Pos, ok bool, detail string) {
+	if to, ok2 := c.rename[rule]; ok2 {
+		rule = to
+	}
 	c.Obs = append(c.Obs, Obligation{Rule: c.ID + "-" + rule, Instance: instance, Pos: c.L.Pos(pos), OK: ok, Detail: detail})
 	if os.Getenv("AKVERIF_DEBUG") != "" {
 		fmt.Fprintf(os.Stderr, "OB %v %s-%s | %s | %s\n", ok, c.ID, rule, instance, c.L.Pos(pos))
@@ -374,6 +393,8 @@ func main() {
 		}
 		sort.Strings(ids)
 		fmt.Println(strings.Join(ids, " "))
+	case "gen-names":
+		os.Exit(genNames())
 	case "explain":
 		b, err := os.ReadFile(os.Args[2])
 		if err != nil {
@@ -422,6 +443,8 @@ func runCheck(id, tier string) (code int) {
 		}
 	}()
 	c.L = Load(repoDir(), false, false)
+	curL = c.L
+	transpMemo = nil
 	fn(c)
 	if tier == "thorough" {
 		runThorough(c, fn)
